@@ -69,6 +69,9 @@ def _breaking(prop, src_root, mut, base="seeded"):
     try:
         p = subprocess.run(["git", "apply", os.path.join(d, "patch.diff")], cwd=tmp, stdout=subprocess.PIPE, stderr=subprocess.STDOUT, text=True)
         if p.returncode:
+            # written against an earlier reviewed HEAD: try with context fuzz before giving up
+            p = subprocess.run("patch -p1 -F3 --no-backup-if-mismatch -s < %s" % os.path.join(d, "patch.diff"), shell=True, cwd=tmp, stdout=subprocess.PIPE, stderr=subprocess.STDOUT, text=True)
+        if p.returncode:
             return {"variant": base + ":" + mut, "skipped": "patch does not apply to the current tree"}
         rc, keys, out = _keys(prop, tmp)
         return {"variant": base + ":" + mut, "rc": rc, "keys": keys}
@@ -93,10 +96,18 @@ def run(chk, src_root, jobs=16):
     except Exception:
         sidx = {}
     selfs = sorted(k for k, v in sidx.items() if not v.get("problem") and (v.get("property") == prop or prop in v.get("caught_by", [])))
-    tasks = [("twin", k) for k in ("reformat", "rename", "noise", "swap", "combo")] + [("mut", m) for m in muts] + [("self", m) for m in selfs]
+    # behaviour-preserving changes written by independent sub-agents (benign/): those recorded as silent for every property must
+    # leave this property's finding keys unchanged (the ones that are not silent are the known false alarms listed in DESIGN.md 8.9)
+    try:
+        with open(os.path.join(VERIF, "benign", "MATRIX.json")) as f:
+            bmx = json.load(f).get("results", {})
+    except Exception:
+        bmx = {}
+    bens = sorted(m for m, r in bmx.items() if m.startswith(prop + "-") and not r.get("violation") and not r.get("analysis_error") and not r.get("error"))
+    tasks = [("twin", k) for k in ("reformat", "rename", "noise", "swap", "combo")] + [("mut", m) for m in muts] + [("self", m) for m in selfs] + [("ben", m) for m in bens]
     results = []
     with ThreadPoolExecutor(max_workers=min(jobs, max(1, len(tasks)))) as ex:
-        futs = [ex.submit(_twin, prop, src_root, k) if t == "twin" else ex.submit(_breaking, prop, src_root, k, "seeded" if t == "mut" else "selftest") for t, k in tasks]
+        futs = [ex.submit(_twin, prop, src_root, k) if t == "twin" else ex.submit(_breaking, prop, src_root, k, {"mut": "seeded", "self": "selftest", "ben": "benign"}[t]) for t, k in tasks]
         for fu in futs:
             results.append(fu.result())
     problems = []
@@ -109,7 +120,12 @@ def run(chk, src_root, jobs=16):
         if "error" in r:
             problems.append("%s could not be built: %s" % (v, r["error"]))
             continue
-        if v.startswith("benign:"):
+        if v.startswith("benign:") and v[7:] in bmx:
+            same = {_strip_rn(k) for k in r["keys"]} == base_keys and r["rc"] in (0, 1)
+            summary.append({"variant": "independent-" + v, "same_finding_keys": same})
+            if not same:
+                problems.append("the behaviour-preserving change %s changes the verdict of %s (extra: %s)" % (v, prop, sorted({_strip_rn(k) for k in r["keys"]} - base_keys)[:2]))
+        elif v.startswith("benign:"):
             same = {_strip_rn(k) for k in r["keys"]} == base_keys
             summary.append({"variant": v, "items_transformed": r.get("items"), "same_finding_keys": same, "findings": len(r["keys"])})
             if not same:
@@ -121,7 +137,7 @@ def run(chk, src_root, jobs=16):
             summary.append({"variant": v, "fired": fired, "new_findings": len(r["keys"] - base_keys)})
             if not fired:
                 problems.append("%s applies to the current tree but %s's rules do not fire on it" % (v, prop))
-    chk.extra["self_validation"] = {"benign_twins": 5, "breaking_variants": len(muts), "rule_coverage_variants": len(selfs), "results": summary}
+    chk.extra["self_validation"] = {"benign_twins": 5, "independent_behaviour_preserving_changes": len(bens), "breaking_variants": len(muts), "rule_coverage_variants": len(selfs), "results": summary}
     for s in summary[:6]:
         chk.sample({"self_validation": s})
     for pb in problems:
